@@ -32,6 +32,7 @@ CONFIG = dict(
         dict(test="TestC30Sequential", quick=3000, thorough=160000, shards=16, shrinktime="2s"),
         dict(test="TestC30Timed", quick=200, thorough=6400, shards=16, shrinktime="1s"),
         dict(test="TestC30SecondWaiterFits", quick=4, thorough=96, shards=16, shrinktime="1s"),
+        dict(test="TestC30SteadyReleases", quick=20, thorough=640, shards=16, shrinktime="1s"),
         dict(test="TestC30Regression", kind="plain"),
     ],
 )
